@@ -189,7 +189,7 @@ class CoopLock:
     if run is None or tid is None:      # outside a scheduled run (main thread): uncontended
       self.owner, self.depth = 'main', self.depth + 1
       return True
-    run.sched.yield_point(tid, False)
+    run.sched.yield_point(tid, True, 'acquire:' + self.name)
     while True:
       if self.owner is None:
         self.owner, self.depth = tid, 1
@@ -296,7 +296,7 @@ class Run:
       if back is not None and back.f_code.co_filename in env.anchor_files:
         site = env.site_by_line.get((back.f_code.co_filename, back.f_lineno))
         if site is not None and site['stmt'] == 'aug':
-          hot = not site['locks'] and not self.held[tid]
+          hot = True
           self.sched.yield_point(tid, hot, site['kind'] + '.w')
           self.raw.append({'w': tid, 'k': site['kind'] + '.w', 'held': list(self.held[tid])})
     return None
@@ -316,7 +316,7 @@ class Run:
     if site is None or dup:
       self.sched.yield_point(tid, False)
       return self.local_trace
-    hot = not self.held[tid]
+    hot = True          # every shared access is a candidate preemption point
     if kind == 'next.active':
       self.sched.ctor_done[tid] = True
     self.sched.yield_point(tid, hot, kind)
@@ -727,9 +727,9 @@ class C16(Prop):
 
   # -- generation --------------------------------------------------------------------------
   def generate(self, rng, tier):
-    n_random = 260 if tier == 'quick' else 5000
+    n_random = 1000 if tier == 'quick' else 12000
     for i in range(n_random):
-      yield self.random_case(rng, tier, big=(tier == 'thorough' and i % 5 == 0))
+      yield self.random_case(rng, tier, big=(i % 8 == 0))
     yield from self.systematic(rng, tier)
 
   def random_case(self, rng, tier, big=False):
@@ -756,7 +756,7 @@ class C16(Prop):
     return {'workers': workers, 'max': mx, 'algo': algo,
             'ctor': rng.choice(['serial', 'concurrent', 'concurrent']),
             'sched': {'mode': 'random', 'seed': rng.below(1 << 30),
-                      'p_hot': rng.choice([0.15, 0.35, 0.6]), 'p_cold': rng.choice([0.0, 0.01, 0.04])}}
+                      'p_hot': rng.choice([0.05, 0.15, 0.4]), 'p_cold': rng.choice([0.0, 0.01, 0.03])}}
 
   def systematic(self, rng, tier):
     """Every placement of one (quick) / up to two (thorough) preemptions at hot yield points."""
@@ -772,7 +772,7 @@ class C16(Prop):
           {'workers': [{'group': 0, 'script': [['done', 1]]}, {'group': 0, 'script': [['donly']]},
                        {'group': 1, 'script': [['done', 3]]}], 'max': 3},
       ]
-    horizon = 40 if tier == 'quick' else 70
+    horizon = 110 if tier == 'quick' else 130
     for cfg in configs:
       for ctor in ('serial', 'concurrent'):
         base = dict(cfg, algo='record', ctor=ctor)
@@ -780,13 +780,13 @@ class C16(Prop):
           yield dict(base, sched={'mode': 'directives', 'd': [['hot', a, 0]]})
         if tier == 'thorough':
           for a in range(0, horizon):
-            for b in range(a + 1, min(horizon, a + 25)):
+            for b in range(a + 1, min(horizon, a + 30)):
               yield dict(base, sched={'mode': 'directives', 'd': [['hot', a, 0], ['hot', b, 0]]})
 
   def search_cases(self, rng, tier, broken):
     for _ in range(900 if tier == 'quick' else 4000):
       c = self.random_case(rng, tier)
-      c['sched']['p_hot'] = 0.6
+      c['sched']['p_hot'] = 0.4
       yield c
 
   # -- execution -----------------------------------------------------------------------------
@@ -806,6 +806,7 @@ class C16(Prop):
     out = {'obs': obs, 'taken': run.sched.taken, 'yields': run.sched.total_yields,
            'hot': run.sched.hot_seen, 'preempted_sites': run.sched.preempted_sites,
            'nacts': len(acts), 'flags': env.info['flags'],
+           'nsetups': sum(1 for e in run.raw if e['k'] == 'setup.do'),
            'user': [[e['w'], e['act'][0], e['t']] for e in run.raw if e['k'] == 'user'],
            'events': self.property_events(run.raw, case)}
     if obs['abort'] is None:
@@ -832,6 +833,8 @@ class C16(Prop):
     for e in raw:
       if e['k'] == 'next.ret':
         out.append(['got', e['w'], e['t']])
+      elif e['k'] == 'ct.append' and 't' in e:
+        out.append(['new', e['w'], e['t']])
       elif e['k'] in ('done.set', 'skip.set'):
         out.append(['fin', e['w'], e['t']])
     return out
@@ -855,6 +858,8 @@ class C16(Prop):
       return 'log is not a run of Step cfgNow: action %s: %s; log around it: %s' % (
           tr.get('at'), tr.get('why'), out.get('acts_tail'))
     st = tr['state']
+    if not st.get('inv_ok'):
+      return 'the final state of the validated run fails the executable invariant check (checkState)'
     model = {'nstudies': len(st['studies']), 'proposals': st['proposals'], 'feedbacks': st['feedbacks'],
              'fed': sorted(st['fedBack']), 'study': None}
     if st['registry'] is not None:
@@ -915,19 +920,24 @@ class C16(Prop):
       g = groups[w]
       if kind == 'fin':
         finished.add(t)
-      if kind == 'got' and t not in finished:    # (a hand-out may be logged after a co-worker finished it)
+      if kind in ('got', 'new') and t not in finished:    # (a hand-out may be logged after a co-worker finished it)
         cur = pending_of.setdefault(g, set())
         other = [x for x in cur if x != t]
         if other:
           return {'signature': 'two-pending-trials-in-group',
-                  'what': 'worker %d of group %s was given trial %d while trial %s of its group is pending' % (
-                      w, g, t, other)}
+                  'what': 'worker %d of group %s %s trial %d while trial %s of its group is pending' % (
+                      w, g, 'created' if kind == 'new' else 'was given', t, other)}
         cur.add(t)
       elif kind == 'fin':
         pending_of.get(g, set()).discard(t)
     # feedback exactly once
     should = sorted(t['id'] for t in st['trials'] if t['completed'] and not t['infeasible'])
     fed = obs['fed']
+    if out.get('nsetups', 0) > 1 and (obs['proposals'] != n or obs['feedbacks'] != len(should)
+                                      or obs.get('algo_seen', len(should)) != len(should)):
+      return {'signature': 'algorithm-reset',
+              'what': 'algorithm.setup ran %d times; afterwards num_proposals = %d for %d trials, num_feedbacks = %d '
+                      'after %d feedbacks' % (out['nsetups'], obs['proposals'], n, obs['feedbacks'], len(should))}
     dup = sorted({t for t in fed if fed.count(t) > 1})
     if dup:
       return {'signature': 'double-feedback', 'what': 'trials %s were fed back more than once (log %s)' % (dup, fed)}
